@@ -111,6 +111,23 @@ def judge(rep, it, fm):
                      impl=got, spec=want, sig=sig)
             if sig is None:
                 return
+    # spec layer: constrained sequence searches identified by a unique tag
+    intern = S.Interner()
+    intern.val = fm['vals']
+    gated = {int(k): v for k, v in mobs.get('specSeqGated', {}).items()}
+    for tag, di in T.unique_tag_seq_defs(scn).items():
+        if di not in gated:
+            continue
+        want = sorted(([[tag + role, ln, [intern.back(v) for v in vs]] for role, ln, vs in sec]
+                       for sec in gated[di]), key=repr)
+        got = impl['sections'].get(tag, [])
+        rep.count('gated_sequences')
+        if got != want:
+            rep.fail('failing-input', scn,
+                     f"constrained sequence {tag!r}: reported sections {got[:3]}; the sections of "
+                     f"reading the file from its first all-passing line on are {want[:3]}",
+                     impl=got, spec=want)
+            return
     diff = T.compare_results(irs, model['results'])
     if not diff and impl['stats']['lines'] != model['lines']:
         diff = f"lines_searched impl={impl['stats']['lines']} model={model['lines']}"
